@@ -1,5 +1,5 @@
 (* Cases.v — concrete instances used when the models are *run* (correspondence), never in theorems. *)
-From Beff Require Export Model.Validate Model.Parse Model.Report Model.Hash256Enc Model.Bdd Model.SemType Model.Schema.
+From Beff Require Export Model.Validate Model.Parse Model.Report Model.Hash256Enc Model.Bdd Model.SemType Model.Schema Model.Describe.
 
 Fixpoint str_len (s : string) : nat := match s with EmptyString => 0 | String _ s' => S (str_len s') end.
 
@@ -43,6 +43,8 @@ Definition run_hash256 (env : renv) (r : rt) : string :=
   end.
 Definition run_hash32 (env : renv) (r : rt) : string :=
   show_res Z_to_string (hash32 env FUEL [] r).
+Definition run_describe (env : renv) (name : string) (hide : bool) (r : rt) : string :=
+  show_res (fun s => s) (describe_top env FUEL name hide r).
 Definition run_writer (writes : list (list N)) : string :=
   writer_hex writes +++ "|" +++ sha256_hex (List.concat writes).
 
